@@ -53,6 +53,9 @@ func c16Gen(c c16Case) (pairs []kv, absent [][]byte) {
 				if rng.Intn(4) == 0 {
 					k = append(k, c16RandBytes(rng, rng.Intn(6))...)
 				}
+				if rng.Intn(8) == 0 { // long keys (deterministic tail so that they repeat)
+					k = append(k, bytes.Repeat([]byte{byte(len(k))}, rng.Intn(300))...)
+				}
 			}
 			vl := rng.Intn(20)
 			switch rng.Intn(40) {
@@ -137,6 +140,20 @@ func c16Gen(c c16Case) (pairs []kv, absent [][]byte) {
 			pairs = append(pairs, kv{[]byte(fmt.Sprintf("noise%d", i)), c16RandBytes(rng, 5)})
 		}
 		absent = append(absent, []byte("fh-absent"))
+	case "keylens":
+		// one key of every length 0..N (DNS keys are 2+wire name, up to 257 bytes; map keys longer), two values for every 7th
+		for l := 0; l <= c.N; l++ {
+			k := c16RandBytes(rng, l)
+			pairs = append(pairs, kv{k, []byte(fmt.Sprintf("len%d", l))})
+			if l%7 == 0 {
+				pairs = append(pairs, kv{k, []byte(fmt.Sprintf("len%d-second", l))})
+			}
+			if l > 0 {
+				a := append([]byte{}, k...)
+				a[l-1] ^= 0x40
+				absent = append(absent, a)
+			}
+		}
 	case "empty":
 		absent = append(absent, []byte{}, []byte("a"))
 	case "sizes":
@@ -309,6 +326,7 @@ func c16Cases(r *report.Run) []c16Case {
 		cs = append(cs, c16Case{"bigvals", 3 + i*4, s + int64(900+i)})
 	}
 	cs = append(cs, c16Case{"fullhash", r.Pick(3, 12), s + 5})
+	cs = append(cs, c16Case{"keylens", 300, s + 6}, c16Case{"keylens", r.Pick(1100, 9000), s + 9})
 	if r.Thorough() {
 		cs = append(cs, c16Case{"collide", 300, s + 77}, c16Case{"sizes", 50000, s + 78})
 	}
@@ -316,7 +334,7 @@ func c16Cases(r *report.Run) []c16Case {
 }
 
 func runC16(r *report.Run) {
-	r.SetRule("seeded workloads written with the real cdb.Writer and read back with the real reader: exact sizes 0,1,2,3,255-257,1000; random pair sequences with a small key alphabet (repeated/empty keys, empty values, value lengths around 255/4096/65536); one key with thousands of values; keys crafted with the repository's spooky hash into one table with start slots at the table end (wrap-around probing, plus absent keys hashing into the same region); pairs of different keys with the same full 32-bit hash, written interleaved; long keys/values; dump->make from a byte reader and from *os.File. non-trivial = workload with >=2 records and (a key with >=2 values or a file > 4096 bytes); distinct by (kind,n,seed)")
+	r.SetRule("seeded workloads written with the real cdb.Writer and read back with the real reader: exact sizes 0,1,2,3,255-257,1000; random pair sequences with a small key alphabet (repeated/empty keys, empty values, value lengths around 255/4096/65536); one key with thousands of values; keys crafted with the repository's spooky hash into one table with start slots at the table end (wrap-around probing, plus absent keys hashing into the same region); pairs of different keys with the same full 32-bit hash, written interleaved; one key of every length 0..300 and 0..1100 (thorough 9000) with a one-bit-different absent twin; long keys/values; dump->make from a byte reader and from *os.File. non-trivial = workload with >=2 records and (a key with >=2 values or a file > 4096 bytes); distinct by (kind,n,seed)")
 	r.Assume("model = insertion-ordered list per key kept by the harness")
 	dir := os.Getenv("VERIF_SCRATCH")
 	if dir == "" {
